@@ -282,7 +282,35 @@ def unit_bounded_after_abort(U):
                 shutil.rmtree(d, ignore_errors=True)
     U.bounded_result("C02.bounded.after_abort", "the Parent graph of an import that follows an aborted import in the same process is its own", "create_db / update x memory / file", cases, fails)
 
-UNITS = [("bounded.after_abort", unit_bounded_after_abort), ("schema", unit_schema), ("query", unit_query)] + IM.c02_units() + [("parse.parents", unit_parse_parents), ("bounded.text", unit_bounded_text)]
+def unit_bounded_nested_walk(U):
+    """Bounded: walking the hierarchy with nested generators (for c in children(x): for gc in children(c): ...; same for
+    parents) sees the same relatives as one call at a time"""
+    fails, cases = [], 0
+    mk = lambda i, t, par=None: F.Feature(seqid="c", source="s", featuretype=t, start=1, end=9, strand="+", attributes=dict({"ID": [i]}, **({"Parent": par} if par else {})))
+    feats = [mk("g1", "gene")] + [mk("m%d" % i, "mRNA", ["g1"]) for i in (1, 2, 3)] + [mk("e%d%d" % (i, j), "exon", ["m%d" % i]) for i in (1, 2, 3) for j in (1, 2)] + [mk("s", "exon", ["m1", "m2"])]
+    db = gffutils.create_db(feats, ":memory:")
+    exp = IM.expected_gff3_relations(feats)
+    cases += 1
+    seen1, seen2 = [], set()
+    for c in db.children("g1", level=1):
+        seen1.append(c.id)
+        for gc in db.children(c, level=1):
+            seen2.add(gc.id)
+    w1 = sorted(ch for (p, ch, l) in exp if p == "g1" and l == 1)
+    w2 = sorted({ch for (p, ch, l) in exp if p == "g1" and l == 2})
+    if sorted(seen1) != w1 or sorted(seen2) != w2:
+        fails.append({"case": "for c in children('g1', level=1): for gc in children(c, level=1)", "expected": [w1, w2], "observed": [sorted(seen1), sorted(seen2)]})
+    cases += 1
+    up1, up2 = [], set()
+    for p_ in db.parents("s", level=1):
+        up1.append(p_.id)
+        for gp in db.parents(p_, level=1):
+            up2.add(gp.id)
+    if sorted(up1) != ["m1", "m2"] or sorted(up2) != ["g1"]:
+        fails.append({"case": "for p in parents('s', level=1): for gp in parents(p, level=1)", "expected": [["m1", "m2"], ["g1"]], "observed": [sorted(up1), sorted(up2)]})
+    U.bounded_result("C02.bounded.nested_walk", "nested generator walks over children / parents == the Parent graph", "1 gene, 3 mRNAs, 7 exons (one shared)", cases, fails)
+
+UNITS = [("bounded.nested_walk", unit_bounded_nested_walk), ("bounded.after_abort", unit_bounded_after_abort), ("schema", unit_schema), ("query", unit_query)] + IM.c02_units() + [("parse.parents", unit_parse_parents), ("bounded.text", unit_bounded_text)]
 
 
 def replay_file(doc):
